@@ -68,6 +68,20 @@ func lockstepDiff(p, a implResult, pw, aw []cpuh.Cell) []string {
 	return d
 }
 
+// readSeqDiff: the two interpreters must issue the same bus reads in the same order (a location may be a
+// hardware register whose value depends on how often and in which order it is read)
+func readSeqDiff(p, a []uint32) string {
+	if len(p) != len(a) {
+		return fmt.Sprintf("cpu65c816 reads %06x, cpualt reads %06x", p, a)
+	}
+	for i := range p {
+		if p[i] != a[i] {
+			return fmt.Sprintf("read #%d: cpu65c816 $%06x, cpualt $%06x (cpu65c816 reads %06x, cpualt %06x)", i, p[i], a[i], p, a)
+		}
+	}
+	return ""
+}
+
 func c02Check(x *cpuCtx, c *cpuCase) (sig, what string, nontrivial bool) {
 	x.buildImage(c)
 	p := x.runImpl(0, c)
@@ -76,6 +90,11 @@ func c02Check(x *cpuCtx, c *cpuCase) (sig, what string, nontrivial bool) {
 	nontrivial = len(x.ms[0].Mem().Writes) > 0 || p.raw.SP != c.S.S || p.raw.P != c.S.P || p.raw.RA != mkRaw(c.S, c.Stale, c.Int).RA
 	d := lockstepDiff(p, a, x.ms[0].Mem().Writes, x.ms[1].Mem().Writes)
 	if len(d) == 0 {
+		if p.panic == nil {
+			if rd := readSeqDiff(x.ms[0].Mem().Reads, x.ms[1].Mem().Reads); rd != "" {
+				return fmt.Sprintf("unexplained:reads-differ:%s:%s", e.Mn, modeName[e.Mode]), fmt.Sprintf("same result, but the interpreters read the bus differently during %s %s: %s | case %s", e.Mn, modeName[e.Mode], rd, c.String()), nontrivial
+			}
+		}
 		return "", "", nontrivial
 	}
 	return fmt.Sprintf("unexplained:differ:%s:%s", e.Mn, modeName[e.Mode]),
@@ -89,6 +108,9 @@ func c02ProgOracle(e *progEnv, res *progStepResult) (sig, what string, descend b
 		return "unexplained:program:differ:" + mn, fmt.Sprintf("interpreters differ after %v from seed state %d in %s | cpu65c816 %v | cpualt %v", e.pathNames(), e.seed, strings.Join(d, ","), res.post[0].raw, res.post[1].raw), false
 	}
 	if res.post[0].panic == nil {
+		if rd := readSeqDiff(e.x.ms[0].Mem().Reads, e.x.ms[1].Mem().Reads); rd != "" {
+			return "unexplained:program:reads-differ:" + mn, fmt.Sprintf("same result after %v from seed state %d, but the interpreters read the bus differently: %s", e.pathNames(), e.seed, rd), false
+		}
 		// Reset from this state: both interpreters must come up identically (the path state is reloaded afterwards)
 		var after [2]cpuh.Raw
 		var pn [2]interface{}
@@ -154,7 +176,7 @@ func runC02(r *report.Run) {
 			r.Sample(cs)
 		}
 	}
-	r.Set("rule", "every case of the five single-step sweeps (with E in {0,1} everywhere, decimal in the operation and flag sweeps, pending interrupt in {0,none,NMI,IRQ} in the flag sweep) and every instruction sequence of the program search (incl. pending NMI/IRQ, IRQ raised through TriggerIRQ, and a Reset from every reached state) is executed on both interpreters from identical raw states and identical images; after each step all exported registers (both copies of A/X/Y), flags, E, Stopped, Interrupt, per-step cycles, AllCycles and the write sets must be identical; non-trivial = the step wrote memory or changed SP, P or the accumulator")
+	r.Set("rule", "every case of the five single-step sweeps (with E in {0,1} everywhere, decimal in the operation and flag sweeps, pending interrupt in {0,none,NMI,IRQ} in the flag sweep) and every instruction sequence of the program search (incl. pending NMI/IRQ, IRQ raised through TriggerIRQ, and a Reset from every reached state) is executed on both interpreters from identical raw states and identical images; after each step all exported registers (both copies of A/X/Y), flags, E, Stopped, Interrupt, per-step cycles, AllCycles, the write sets and the sequence of bus reads must be identical; non-trivial = the step wrote memory or changed SP, P or the accumulator")
 	r.Assume("no reference model involved: the oracle is raw lockstep equality of the two implementations")
 	c := cpuDefaultCase(0xAF)
 	c.S.K, c.S.PC = 2, 0xFFFD
